@@ -364,15 +364,23 @@ def case_exprs(ctx, tag, skind, strategy, model, rec, result, used_data, exprs, 
         if fl.shape != dflat.shape or not np.all(np.isfinite(fl)):
             ctx.count("resid-point-skipped")
             continue
-        fn = "nmp_resid_scaled" if skind == "nmpfit" else "scipy_resid_scaled"
+        # the in/out-of-bounds decision inside lnprob is made on the implementation's own floats
+        # (x*sf rounded), so the residual model is evaluated at them; that they ARE the unscaled
+        # point is the first conjunct
+        fn = "nmp_residuals" if skind == "nmpfit" else "scipy_residuals"
         e = ("qlist_close tol (unscale_all QO %s %s) %s && resid_close %d (%s QO (fun x => x) (fun _ => %s) %s %s %s %s) %s"
-             % (ps, qlist(xs), qlist(phys), npix, fn, qlist(fl), qlist(dflat), qlit(noise), ps, qlist(xs),
+             % (ps, qlist(xs), qlist(phys), npix, fn, qlist(fl), qlist(dflat), qlit(noise), ps, qlist(phys),
                 listlit([xv_lit(v) for v in r])))
         add("residual", e, point=[float(x) for x in xs], n_residuals=len(r), n_pixels=npix,
             residual_tail=[float(v) for v in r[-3:]])
         ctx.count("residual-vectors")
         ctx.count("residual-entries", len(r))
     # 3. result bookkeeping
+    if not all(math.isfinite(float(u.plus)) and math.isfinite(float(u.minus)) for u in result.intervals):
+        # error bars from a singular J^T J (a parameter pegged at a bound): not a property clause
+        ctx.count("intervals-nonfinite-skipped")
+        _bounds_expr(add, ps, pars, xout, sfs)
+        return
     iv = listlit(["(mkUV %s %s %s %s)" % (qlit(float(u.guess)), qlit(float(u.plus)), qlit(float(u.minus)),
                                            strlit(str(u.name))) for u in result.intervals])
     nl = listlit([strlit(n) for n in names])
@@ -390,6 +398,10 @@ def case_exprs(ctx, tag, skind, strategy, model, rec, result, used_data, exprs, 
             % (ps, nl, qlist(xout), qlit(nz), qlist(ue), iv),
             impl=[dict(guess=float(u.guess), plus=float(u.plus), minus=float(u.minus), name=u.name)
                   for u in result.intervals])
+    _bounds_expr(add, ps, pars, xout, sfs)
+
+
+def _bounds_expr(add, ps, pars, xout, sfs):
     # 4. limits <=> bounds on the returned point (exact on the same floats)
     physout = [x * s for x, s in zip(xout, sfs)]
     impl_inside = all(inside(p, v, slack=0.0) for p, v in zip(pars, physout))
